@@ -34,6 +34,33 @@ theorem zc_step {g sh Q log sh' i push evs} (h : InvP g sh (i :: Q) log) (hq : I
       · exact Or.inr (Or.inl (List.mem_append_right _ h1))
       · cases h1
       · exact Or.inr (Or.inr (List.mem_append_right _ h1))
+    case extz eid k =>
+      simp only [exec, hsc, if_true] at he
+      intro n hn hz
+      by_cases hre : (sh.recheck && refNonZero sh.nodes eid) = true
+      · rw [if_pos hre] at he
+        simp only [Option.some.injEq, Prod.mk.injEq] at he; obtain ⟨rfl, rfl, rfl⟩ := he
+        rcases hzc n hn hz with h1 | (h1 | h1) | (h1 | h1)
+        · exact Or.inl h1
+        · -- the re-check found a non-zero counter: it is not this node
+          exfalso
+          injection h1 with h1 _
+          subst h1
+          simp only [refNonZero, findId_of_mem h.ids.1 hn, Bool.and_eq_true, decide_eq_true_eq] at hre
+          exact hre.2 hz
+        · exact Or.inr (Or.inl (List.mem_append_right _ h1))
+        · cases h1
+        · exact Or.inr (Or.inr (List.mem_append_right _ h1))
+      · rw [if_neg hre] at he
+        simp only [Option.some.injEq, Prod.mk.injEq] at he; obtain ⟨rfl, rfl, rfl⟩ := he
+        rcases hzc n hn hz with h1 | (h1 | h1) | (h1 | h1)
+        · exact Or.inl h1
+        · injection h1 with h1 _
+          subst h1
+          exact Or.inr (Or.inr (by simp))
+        · exact Or.inr (Or.inl (List.mem_append_right _ h1))
+        · cases h1
+        · exact Or.inr (Or.inr (List.mem_append_right _ h1))
     case fin fid ff =>
       have hff : ff = false := by cases ff <;> simp_all [forcedOnly]
       subst hff
